@@ -40,6 +40,13 @@ if ! go build -modfile="$priv" ${args[@]+"${args[@]}"} -tags verif -o "$BIN" ./c
   echo "CHECK-BROKEN C02: build failed" >&2
   exit 2
 fi
+# -race build of the same program for the re-entrancy pass (internal/nohb, reentrant.go)
+if ! go build -race -modfile="$priv" ${args[@]+"${args[@]}"} -tags verif -o "$BIN-race" ./cmd/c02 2> "$BIN.racebuildlog"; then
+  cat "$BIN.racebuildlog" >&2
+  echo "CHECK-BROKEN C02: race build failed" >&2
+  exit 2
+fi
+export VERIF_RACE_BIN="$BIN-race"
 [ "$TIER" = build ] && exit 0
 export VERIF_REPO_DIR="$REPO"
 exec "$BIN" -tier "$TIER" "$@"
